@@ -8,7 +8,7 @@ Lean: lean/N0Verif/Model/Tlv.lean, Model/Fwf.lean, Proofs/Tlv.lean, Proofs/Fwf.l
       C16_generated_gen_entry_eq / _entries_eq / _guard_eq / _guard_skips / _eq prove it equal to Tlv.genEntry / genEntries / lenPadOk / generateTlv.
       Gen/FwfPy.lean is regenerated from two fragments of parse_fwf_row / generate_fwf_row (harness/translate_py_fwf.py);
       C16_generated_fwf_slice_eq / C16_generated_gen_fwf_cell_eq prove them equal to Fwf.colValue / Fwf.place.
-B streams: tlv.int, tlv.parse (generated / mutated / soup / exhaustive), tlvpy.parse (the translated generator), tlv.gen, tlvgenpy.gen (the translated writer), fwf.parse, fwf.gen, fwf.load
+B streams: tlv.int, tlv.parse (generated / mutated / soup / exhaustive), tlvpy.parse (the translated generator), tlv.gen, tlvgenpy.gen (the translated writer), fwfpy.slice / fwfpy.place (the translated fixed-width fragments), fwf.parse, fwf.gen, fwf.load
 C evaluators: tlv_roundtrip (round trip + refusal), tlv_tiling (termination + tiling on arbitrary input),
               fwf_roundtrip, fwf_every_row_once
 """
@@ -39,7 +39,7 @@ MANIFEST = dict(
          "for natural widths and one-character paddings; stream tlvgenpy.gen compares the translated writer with the real one (also with paddings that are not one character). "
          "Fixed-width: harness/translate_py_fwf.py re-translates two fragments into Gen/FwfPy.lean - the slice computation of parse_fwf_row (offset / width / till -> incoming_row[offset:till]) and the "
          "cell rendering of generate_fwf_row (str(), zfill / ljust, truncation, splice into rendered_row) - and Lean re-checks C16_generated_fwf_slice_eq (= Fwf.colValue, never raises) and "
-         "C16_generated_gen_fwf_cell_eq (= Fwf.place); the rest of the two functions (eval of validations / mappings, the column loops, dict handling) stays differential only. "
+         "C16_generated_gen_fwf_cell_eq (= Fwf.place); streams fwfpy.slice / fwfpy.place compare the translated fragments with one-column calls of the real functions (also negative positions); the rest of the two functions (eval of validations / mappings, the column loops, dict handling) stays differential only. "
          "Proved in Lean (unbounded in input length, number of entries, columns and lines; Props/C16.lean, nothing stated-but-not-proved): "
          "C16_tlv_tiles - for EVERY function used as int() that rejects the empty string, every input string and all field widths, "
          "parse_tlv (with fix C16-a: negative length -> ValueError) ends normally or with ValueError, never runs out of fuel, the "
@@ -183,6 +183,40 @@ def tlv_gen_line(c):
 def tlv_gen_canon(c):
     gen = impl()[1]
     r = core.call(gen, mapping_of(c), c["tl"], c["ll"], c["tp"], c["lp"])
+    return "ok " + enc_str(r[1]) if r[0] == "ok" else "err " + r[1]
+
+
+# --- the fragments of parse_fwf_row / generate_fwf_row translated from the source (Gen/FwfPy.lean) --------------
+def _opt(x):
+    return "-" if x is None else str(x)
+
+
+def fwfpy_slice_line(c):
+    return "fwfpy.slice %s %s %s %s" % (enc_str(c["row"]), _opt(c["offset"]), _opt(c["width"]), _opt(c["till"]))
+
+
+def fwfpy_slice_canon(c):
+    """the value of the only column of a one-column layout (no validations): what the translated fragment computes"""
+    col = {k: c[k] for k in ("offset", "width", "till") if c[k] is not None or c.get("explicit_none")}
+    r = core.call(impl()[2], c["row"], {"c": col}, False)
+    if r[0] != "ok":
+        return "err " + r[1]
+    if not isinstance(r[1], dict) or list(r[1]) != ["c"]:
+        return "err BadResult"
+    v = r[1]["c"]
+    return "ok N" if v is None else "ok S" + enc_str(v)
+
+
+def fwfpy_place_line(c):
+    return "fwfpy.place %d %d %d %s %s %s" % (c["size"], c["offset"], c["till"], "-" if c["type"] is None else enc_str(c["type"]), enc_str(c["filler"]), enc_val(c["v"]))
+
+
+def fwfpy_place_canon(c):
+    """a one-column layout: the row starts as filler * till and the translated fragment renders the column into it"""
+    col = {"name": "c", "offset": c["offset"], "till": c["till"], "size": c["size"]}
+    if c["type"] is not None:
+        col["type"] = c["type"]
+    r = core.call(impl()[3], {"c": c["v"]}, [col], c["filler"])
     return "ok " + enc_str(r[1]) if r[0] == "ok" else "err " + r[1]
 
 
@@ -752,7 +786,7 @@ def shrink_failure(evaluator, case):
     return core.shrink(case, lambda c: _valid(evaluator, c) and fn(c) is not None)
 
 
-CANON = {"tlv.int": int_canon, "tlv.parse": tlv_parse_canon, "tlvpy.parse": tlvpy_parse_canon, "tlv.gen": tlv_gen_canon, "tlvgenpy.gen": tlv_gen_canon, "fwf.parse": fwf_parse_canon, "fwf.gen": fwf_gen_canon, "fwf.load": fwf_load_canon}
+CANON = {"tlv.int": int_canon, "tlv.parse": tlv_parse_canon, "tlvpy.parse": tlvpy_parse_canon, "tlv.gen": tlv_gen_canon, "tlvgenpy.gen": tlv_gen_canon, "fwfpy.slice": fwfpy_slice_canon, "fwfpy.place": fwfpy_place_canon, "fwf.parse": fwf_parse_canon, "fwf.gen": fwf_gen_canon, "fwf.load": fwf_load_canon}
 
 
 def replay(rp):
@@ -893,6 +927,17 @@ def _run(ctx):
         ggen.append({"rec": gen_record(rng, fmt), "fmt": fmt, "filler": rng.choice([" ", " ", ".", "*", "ab", ""])})
     ggen.append({"rec": [], "fmt": [], "filler": " "})
     ctx.correspond("fwf.gen", ggen, fwf_gen_line, fwf_gen_canon, nontrivial=lambda c: len(c["rec"]) > 0)
+
+    # ---- the fragments translated from the source (Gen/FwfPy.lean): also integers outside the scope of the model (negative)
+    rng = ctx.rng("fwfpy")
+    pos = [None, None, 0, 0, 1, 2, 3, 5, 8, 12, 20, -1, -3, -20]
+    scases = [{"row": gen_row_text(rng), "offset": rng.choice(pos), "width": rng.choice(pos), "till": rng.choice(pos), "explicit_none": rng.random() < 0.3}
+              for _ in range(ctx.budget(1500, 15000))]
+    ctx.correspond("fwfpy.slice", scases, fwfpy_slice_line, fwfpy_slice_canon, nontrivial=lambda c: c["offset"] is not None and len(c["row"]) > 0)
+    ints = [0, 1, 2, 3, 4, 6, 9, -1, -2]
+    plcases = [{"size": rng.choice(ints), "offset": rng.choice(ints), "till": rng.choice(ints), "type": rng.choice([None, "int", "int", "str", ""]),
+                "filler": rng.choice([" ", " ", ".", "ab", ""]), "v": gen_rec_value(rng)} for _ in range(ctx.budget(1500, 15000))]
+    ctx.correspond("fwfpy.place", plcases, fwfpy_place_line, fwfpy_place_canon, nontrivial=lambda c: c["till"] > 0)
 
     # ---- B5: load_fwf
     rng = ctx.rng("fwf.load")
